@@ -281,50 +281,50 @@ package volume
 // what each New* function returns, read off its literal: fresh, pairwise separate sub-objects, fields equal to the
 // arguments / constants they are initialised with (transitively through nested constructors); proved, not assumed
 //@ func NewChaikinMoneyFlowStrategy
-//@ ensures[C06] "fresh-and-separate-objects" fresh(result) && fresh(result.ChaikinMoneyFlow) && fresh(result.ChaikinMoneyFlow.Mfv) && fresh(result.ChaikinMoneyFlow.Mfv.Mfm) && fresh(result.ChaikinMoneyFlow.Sum)
-//@ ensures[C06] "configured-as-given" result.ChaikinMoneyFlow.Sum.Period == 20
+//@ ensures[C04,C05,C06,C14] "fresh-and-separate-objects" fresh(result) && fresh(result.ChaikinMoneyFlow) && fresh(result.ChaikinMoneyFlow.Mfv) && fresh(result.ChaikinMoneyFlow.Mfv.Mfm) && fresh(result.ChaikinMoneyFlow.Sum)
+//@ ensures[C04,C05,C06,C14] "configured-as-given" result.ChaikinMoneyFlow.Sum.Period == 20
 
 //@ func NewChaikinMoneyFlowStrategyWith
-//@ ensures[C06] "fresh-and-separate-objects" fresh(result) && fresh(result.ChaikinMoneyFlow) && fresh(result.ChaikinMoneyFlow.Mfv) && fresh(result.ChaikinMoneyFlow.Mfv.Mfm) && fresh(result.ChaikinMoneyFlow.Sum)
-//@ ensures[C06] "configured-as-given" result.ChaikinMoneyFlow.Sum.Period == period
+//@ ensures[C04,C05,C06,C14] "fresh-and-separate-objects" fresh(result) && fresh(result.ChaikinMoneyFlow) && fresh(result.ChaikinMoneyFlow.Mfv) && fresh(result.ChaikinMoneyFlow.Mfv.Mfm) && fresh(result.ChaikinMoneyFlow.Sum)
+//@ ensures[C04,C05,C06,C14] "configured-as-given" result.ChaikinMoneyFlow.Sum.Period == period
 
 //@ func NewEaseOfMovementStrategy
-//@ ensures[C06] "fresh-and-separate-objects" fresh(result) && fresh(result.EaseOfMovement) && fresh(result.EaseOfMovement.Sma)
-//@ ensures[C06] "configured-as-given" result.EaseOfMovement.Sma.Period == 14
+//@ ensures[C04,C05,C06,C14] "fresh-and-separate-objects" fresh(result) && fresh(result.EaseOfMovement) && fresh(result.EaseOfMovement.Sma)
+//@ ensures[C04,C05,C06,C14] "configured-as-given" result.EaseOfMovement.Sma.Period == 14
 
 //@ func NewEaseOfMovementStrategyWith
-//@ ensures[C06] "fresh-and-separate-objects" fresh(result) && fresh(result.EaseOfMovement) && fresh(result.EaseOfMovement.Sma)
-//@ ensures[C06] "configured-as-given" result.EaseOfMovement.Sma.Period == period
+//@ ensures[C04,C05,C06,C14] "fresh-and-separate-objects" fresh(result) && fresh(result.EaseOfMovement) && fresh(result.EaseOfMovement.Sma)
+//@ ensures[C04,C05,C06,C14] "configured-as-given" result.EaseOfMovement.Sma.Period == period
 
 //@ func NewForceIndexStrategy
-//@ ensures[C06] "fresh-and-separate-objects" fresh(result) && fresh(result.ForceIndex) && fresh(result.ForceIndex.Ema)
-//@ ensures[C06] "configured-as-given" result.ForceIndex.Ema.Period == 13 && result.ForceIndex.Ema.Smoothing == 2
+//@ ensures[C04,C05,C06,C14] "fresh-and-separate-objects" fresh(result) && fresh(result.ForceIndex) && fresh(result.ForceIndex.Ema)
+//@ ensures[C04,C05,C06,C14] "configured-as-given" result.ForceIndex.Ema.Period == 13 && result.ForceIndex.Ema.Smoothing == 2
 
 //@ func NewForceIndexStrategyWith
-//@ ensures[C06] "fresh-and-separate-objects" fresh(result) && fresh(result.ForceIndex) && fresh(result.ForceIndex.Ema)
-//@ ensures[C06] "configured-as-given" result.ForceIndex.Ema.Period == period && result.ForceIndex.Ema.Smoothing == 2
+//@ ensures[C04,C05,C06,C14] "fresh-and-separate-objects" fresh(result) && fresh(result.ForceIndex) && fresh(result.ForceIndex.Ema)
+//@ ensures[C04,C05,C06,C14] "configured-as-given" result.ForceIndex.Ema.Period == period && result.ForceIndex.Ema.Smoothing == 2
 
 //@ func NewMoneyFlowIndexStrategy
-//@ ensures[C06] "fresh-and-separate-objects" fresh(result) && fresh(result.MoneyFlowIndex) && fresh(result.MoneyFlowIndex.Sum) && fresh(result.MoneyFlowIndex.TypicalPrice)
-//@ ensures[C06] "configured-as-given" result.BuyAt == 20 && result.MoneyFlowIndex.Sum.Period == 14 && result.SellAt == 80
+//@ ensures[C04,C05,C06,C14] "fresh-and-separate-objects" fresh(result) && fresh(result.MoneyFlowIndex) && fresh(result.MoneyFlowIndex.Sum) && fresh(result.MoneyFlowIndex.TypicalPrice)
+//@ ensures[C04,C05,C06,C14] "configured-as-given" result.BuyAt == 20 && result.MoneyFlowIndex.Sum.Period == 14 && result.SellAt == 80
 
 //@ func NewMoneyFlowIndexStrategyWith
-//@ ensures[C06] "fresh-and-separate-objects" fresh(result) && fresh(result.MoneyFlowIndex) && fresh(result.MoneyFlowIndex.Sum) && fresh(result.MoneyFlowIndex.TypicalPrice)
-//@ ensures[C06] "configured-as-given" result.BuyAt == buyAt && result.MoneyFlowIndex.Sum.Period == 14 && result.SellAt == sellAt
+//@ ensures[C04,C05,C06,C14] "fresh-and-separate-objects" fresh(result) && fresh(result.MoneyFlowIndex) && fresh(result.MoneyFlowIndex.Sum) && fresh(result.MoneyFlowIndex.TypicalPrice)
+//@ ensures[C04,C05,C06,C14] "configured-as-given" result.BuyAt == buyAt && result.MoneyFlowIndex.Sum.Period == 14 && result.SellAt == sellAt
 
 //@ func NewNegativeVolumeIndexStrategy
-//@ ensures[C06] "fresh-and-separate-objects" fresh(result) && fresh(result.NegativeVolumeIndex) && fresh(result.NegativeVolumeIndexEma)
-//@ ensures[C06] "configured-as-given" result.NegativeVolumeIndexEma.Period == 255 && result.NegativeVolumeIndexEma.Smoothing == 2
+//@ ensures[C04,C05,C06,C14] "fresh-and-separate-objects" fresh(result) && fresh(result.NegativeVolumeIndex) && fresh(result.NegativeVolumeIndexEma)
+//@ ensures[C04,C05,C06,C14] "configured-as-given" result.NegativeVolumeIndexEma.Period == 255 && result.NegativeVolumeIndexEma.Smoothing == 2
 
 //@ func NewNegativeVolumeIndexStrategyWith
-//@ ensures[C06] "fresh-and-separate-objects" fresh(result) && fresh(result.NegativeVolumeIndex) && fresh(result.NegativeVolumeIndexEma)
-//@ ensures[C06] "configured-as-given" result.NegativeVolumeIndexEma.Period == emaPeriod && result.NegativeVolumeIndexEma.Smoothing == 2
+//@ ensures[C04,C05,C06,C14] "fresh-and-separate-objects" fresh(result) && fresh(result.NegativeVolumeIndex) && fresh(result.NegativeVolumeIndexEma)
+//@ ensures[C04,C05,C06,C14] "configured-as-given" result.NegativeVolumeIndexEma.Period == emaPeriod && result.NegativeVolumeIndexEma.Smoothing == 2
 
 //@ func NewWeightedAveragePriceStrategy
-//@ ensures[C06] "fresh-and-separate-objects" fresh(result) && fresh(result.WeightedAveragePrice) && fresh(result.WeightedAveragePrice.Sum)
-//@ ensures[C06] "configured-as-given" result.WeightedAveragePrice.Sum.Period == 14
+//@ ensures[C04,C05,C06,C14] "fresh-and-separate-objects" fresh(result) && fresh(result.WeightedAveragePrice) && fresh(result.WeightedAveragePrice.Sum)
+//@ ensures[C04,C05,C06,C14] "configured-as-given" result.WeightedAveragePrice.Sum.Period == 14
 
 //@ func NewWeightedAveragePriceStrategyWith
-//@ ensures[C06] "fresh-and-separate-objects" fresh(result) && fresh(result.WeightedAveragePrice) && fresh(result.WeightedAveragePrice.Sum)
-//@ ensures[C06] "configured-as-given" result.WeightedAveragePrice.Sum.Period == period
+//@ ensures[C04,C05,C06,C14] "fresh-and-separate-objects" fresh(result) && fresh(result.WeightedAveragePrice) && fresh(result.WeightedAveragePrice.Sum)
+//@ ensures[C04,C05,C06,C14] "configured-as-given" result.WeightedAveragePrice.Sum.Period == period
 // ---- end of generated constructor contracts ----
